@@ -34,7 +34,7 @@ reg("C01", "C01", _faulted("C01"), "exploration", {"quick": 2500, "thorough": 40
     reach=["c01.d_kind_soc", "c01.d_kind_geo"])
 reg("C02", "C02", _faulted("C02"), "exploration", {"quick": 2500, "thorough": 40000})
 reg("C06", "C06", _faulted("C06"), "exploration", {"quick": 2000, "thorough": 30000})
-reg("C07", "C07", _faulted("C07"), "exploration", {"quick": 2500, "thorough": 40000})
+reg("C07", "C07", _faulted("C07"), "exploration", {"quick": 6000, "thorough": 40000})
 def _c08_on_timeout(seed, idx, tier):
     """A case hit the wall-clock watchdog: decide by counting steps (replayable), not by the clock."""
     return engines.faulted_case("C08", seed, idx, tier, step_cap=engines.STEP_CAP)
@@ -48,9 +48,9 @@ reg("C08", "C08", _faulted("C08"), "exploration", {"quick": 3000, "thorough": 50
 reg("C05", "C05", _cut("C05"), "fault_enumeration", {"quick": 160, "thorough": 1500},
     rule=RULE_WORLD + "; for each sampled statement the budget maxfev=k is injected at EVERY k up to the tier's cap "
     "(and around nb_points) and maxiter=k at several k: cut_points_enumerated counts those runs")
-reg("C09", "C09", _cut("C09"), "fault_enumeration", {"quick": 120, "thorough": 1200},
+reg("C09", "C09", _cut("C09"), "fault_enumeration", {"quick": 240, "thorough": 1600},
     rule=RULE_WORLD + "; for each sampled statement a stop request (callback StopIteration at call k; target or "
     "feasibility tolerance first met at evaluation k) is injected at EVERY evaluation index k up to the tier's cap")
-reg("C20", "C20", _cut("C20"), "fault_enumeration", {"quick": 120, "thorough": 1200},
+reg("C20", "C20", _cut("C20"), "fault_enumeration", {"quick": 160, "thorough": 1200}, isolate=True, case_timeout=400,
     rule=RULE_WORLD + "; counterfactual branching: for EVERY callback call k of the baseline the same world is re-run "
     "with StopIteration raised at call k and the result compared with what call k received")
